@@ -131,5 +131,22 @@ CHECKS["C02"] = dict(
     technique="TLA+ bag semantics enumerated with TLC; expectations replayed as multisets on the real query engine",
 )
 
+CHECKS["C03"] = dict(
+    engine="IterSched",
+    category="model_checking",
+    text=("IterSched.tla: two evaluations over one variable's domain (replay cache + shared one-shot source), actions start / "
+          "next / abandon / restart; layer R = every evaluation yields the domain in order whatever the other does; layer I = "
+          "the intended private-cursor protocol (TLC: satisfies C03, 1.5 M states) and the as-implemented protocol (SharedDrain: "
+          "dict-values replay + shared generator, refuted by TLC and used as the exact as-is predictor). All 8-step schedules "
+          "(cold and warm) and simulated 14-step schedules are stepped with next() on real iterators in six query families plus "
+          "three rule-query families on sequential schedules; every returned value is compared with the value the evaluation "
+          "returns when run alone; a deviation counts as the recorded finding only if the whole observation equals the "
+          "as-implemented prediction."),
+    design_ref="DESIGN.md §4 C03",
+    note=("Trusted: TLC, the projection of results to domain positions. Interleaved evaluations of rule queries are not "
+          "generated (selector state is shared by design of the fix for C03-F07)."),
+    technique="TLA+ iterator-schedule model checked with TLC; TLC-enumerated schedules replayed step by step on real iterators; as-implemented model used for finding attribution",
+)
+
 NOT_YET = "check not built yet in this build round (specified in DESIGN.md §4; will be claimed when its TLA+ module and binding exist)"
 NOT_APPLICABLE = {}
